@@ -1095,6 +1095,31 @@ Proof.
   - rewrite (frame3 prof _ _ h t _ Hn Hh), Hsame, <- app_assoc. apply RT. exact Hv.
 Qed.
 
+(* the same packets cut short: the frame announces k bytes, fewer than the body needs — an inner
+   length runs past the end of the frame.  Remaining-length error for the strict poll decoder,
+   "incomplete" (None) for the blocking one, the transport's EOF for the async one. *)
+Theorem C20_truncated_3 prof p k sfx t : I3.valid p = true -> ignores_rl3 p = true -> body_len3 p < VMAX ->
+  (k < length (concat (body_chunks3 p)))%nat ->
+  let body := firstn k (concat (body_chunks3 p)) in
+  rr_res _ (poll3 prof (control_byte p :: write_var_int (len body) ++ body ++ sfx) t)
+    = Some (Err InvalidRemainingLength) /\
+  F3.dec_block prof (control_byte p :: write_var_int (len body) ++ body) = BNone /\
+  F3.dec_async prof TEof (control_byte p :: write_var_int (len body) ++ body) = RErr (IoError KUnexpectedEof).
+Proof.
+  intros Hv Hi Hb Hk body.
+  pose proof (body_rt filter_profile_indep prof p TEof [] Hv) as RT.
+  assert (Hn : len body < VMAX).
+  { assert (Hle : len body <= body_len3 p); [|lia].
+    unfold body. rewrite <- body_chunks_len. unfold clen, len. rewrite firstn_length. lia. }
+  assert (Hh : exists h, header_new_with (control_byte p) (len body) = Ok h /\ build_empty_packet h = None /\
+               forall t d, block_decode prof h t d = body_decode_async prof (header_of p) t d).
+  { destruct p; try discriminate Hi; eexists; (split; [reflexivity|split; reflexivity]). }
+  destruct Hh as (h & Hh & Hbe & Hsame).
+  apply (C20_poll_eof_inside_3 prof _ body sfx h t Hn Hh Hbe).
+  rewrite Hsame. unfold body.
+  apply (ok_prefix_eof _ (stable_v3_body_decode_async prof (header_of p)) TEof _ [] p RT k Hk TEof).
+Qed.
+
 (* ------------------------------------------------------------------------------------ *)
 (* Layer 1, decoder level: the empty topic list                                         *)
 (* ------------------------------------------------------------------------------------ *)
@@ -1229,3 +1254,4 @@ Print Assumptions C20_subscribe_item_overrun_3.
 Print Assumptions C20_poll_leftover_3.
 Print Assumptions C20_poll_eof_inside_3.
 Print Assumptions C20_poll_extra_byte_3.
+Print Assumptions C20_truncated_3.
